@@ -545,8 +545,14 @@ func (x *TopicsIndex) scanMessages(filter string, d int, n *particle, pks []pack
 
 	key, hasNext := isolateParticle(filter, d)
 	if key == "+" || key == "#" || d == -1 {
+		if key == "#" && d > 0 && d == strings.Count(filter, "/") && n.retainPath != "" { // 'filter/#' also matches the parent level as per 4.7.1.2
+			if pk, ok := x.Retained.Get(n.retainPath); ok {
+				pks = append(pks, pk)
+			}
+		}
+
 		for _, adjacent := range n.particles.getAll() {
-			if d == 0 && adjacent.key == SysPrefix {
+			if d == 0 && strings.HasPrefix(adjacent.key, "$") { // top level wildcards never match $ topics [MQTT-4.7.2-1]
 				continue
 			}
 
